@@ -253,7 +253,8 @@ def simplify_equality(
     )
     transformed_left_expr = parse_expr(transformed_left_expr, evaluate=False)
     transformed_right_expr = parse_expr(transformed_right_expr, evaluate=False)
-    equation = Eq(transformed_left_expr, transformed_right_expr)
+    # building the unevaluated relation, sympy's eager comparison divides by zero on terms such as 0 / x.
+    equation = Eq(transformed_left_expr, transformed_right_expr, evaluate=False)
     simplified_equation = simplify(equation)
 
     if isinstance(simplified_equation, BooleanTrue):
